@@ -21,6 +21,8 @@ pub mod c12;
 pub mod c13;
 pub mod c14;
 pub mod c15;
+pub mod c16;
+pub mod c18;
 
 pub const SERVER_IP: IpAddr = IpAddr::V4(Ipv4Addr::new(192, 0, 2, 10));
 
@@ -40,6 +42,8 @@ pub fn all() -> Vec<Box<dyn Prop>> { vec![
         Box::new(c13::C13),
         Box::new(c14::C14),
         Box::new(c15::C15),
+        Box::new(c16::C16),
+        Box::new(c18::C18),
     ] }
 
 pub fn find(id: &str) -> Option<Box<dyn Prop>> { all().into_iter().find(|p| p.id() == id) }
